@@ -476,6 +476,17 @@ func (env *SpecEnv) call(n *ECall) SVal {
 		}
 		srt := SInt
 		fkey := kx.V
+		leafPath := ""
+		if i := strings.Index(fkey, "@"); i >= 0 {
+			// key@leafpath[:Sort] selects one scalar component of a composite result (".1", ".0.Type#tag", ...)
+			rest := fkey[i+1:]
+			fkey = fkey[:i]
+			if j := strings.LastIndex(rest, ":"); j >= 0 {
+				leafPath, fkey = rest[:j], fkey+rest[j:]
+			} else {
+				leafPath = rest
+			}
+		}
 		switch {
 		case strings.HasSuffix(fkey, ":Seq"):
 			srt, fkey = SSeq, strings.TrimSuffix(fkey, ":Seq")
@@ -484,7 +495,7 @@ func (env *SpecEnv) call(n *ECall) SVal {
 		case strings.HasSuffix(fkey, ".String"):
 			srt = SSeq
 		}
-		return SVal{V: scalar(App("fn$"+fkey, srt, ts...)), G: map[string]string{SInt: "Ref", SSeq: "Seq", SBool: "bool"}[srt]}
+		return SVal{V: scalar(App("fn$"+fkey+leafPath, srt, ts...)), G: map[string]string{SInt: "Ref", SSeq: "Seq", SBool: "bool"}[srt]}
 	case "u64", "i64", "i32":
 		v := env.eval(n.Args[0])
 		k := map[string]types.BasicKind{"u64": types.Uint64, "i64": types.Int64, "i32": types.Int32}[n.Fn]
